@@ -45,6 +45,7 @@ type Script struct {
 	ExeDetails            string
 	ExeMsg                string
 	Nondet                bool
+	ShowConf              bool // Execute reports the configured option (C11)
 	execAgain             func() Obs
 	armed                 bool // constructor panics only once armed (registration calls it for its nil check)
 }
@@ -105,6 +106,9 @@ func (m *mockCore) applies() bool {
 
 func (m *mockCore) execute() *lint.LintResult {
 	*m.log = append(*m.log, evExecute)
+	if m.s.ShowConf && m.conf.A != 0 {
+		return &lint.LintResult{Status: lint.Notice, Details: fmt.Sprintf("A=%d", m.conf.A)}
+	}
 	switch m.s.Exe {
 	case "res":
 		return &lint.LintResult{Status: lint.LintStatus(m.s.ExeStatus), Details: m.s.ExeDetails}
